@@ -518,6 +518,57 @@ func nestings(depth int, withBad bool) []Nest {
 	return out
 }
 
+
+// FuzzSetAlgebra (thorough tier): coverage-guided fuzzing of the set-algebra helpers; the input is
+// cut into 1-3 slices at every 0xff byte, values are bytes modulo a small or a large range.
+func FuzzSetAlgebra(f *testing.F) {
+	f.Add(uint8(0), uint8(0), []byte{1, 2, 1, 3, 2, 0xff, 2, 3, 0xff, 3})
+	f.Add(uint8(3), uint8(5), []byte{7, 7, 9, 0xff, 9, 7})
+	f.Fuzz(func(t *testing.T, fi, opt uint8, data []byte) {
+		if len(data) > 700 {
+			data = data[:700]
+		}
+		fns := []string{"Unique", "UniqueBy", "Intersection", "IntersectionBy", "Without", "Difference", "DifferenceBy", "Duplicate", "DuplicateWithIndex"}
+		c := Case{Fn: fns[int(fi)%len(fns)], T: []string{"int", "string", "float"}[int(opt)%3], Key: []string{"id", "mod2", "const", "inc"}[int(opt/3)%4]}
+		rv := []int{3, 20, 251}[int(opt/12)%3]
+		cur := []int{}
+		var parts [][]int
+		for _, b := range data {
+			if b == 0xff {
+				parts = append(parts, cur)
+				cur = []int{}
+				continue
+			}
+			cur = append(cur, int(b)%rv)
+		}
+		parts = append(parts, cur)
+		switch c.Fn {
+		case "Intersection", "IntersectionBy":
+			if len(parts) > 3 {
+				parts = parts[:3]
+			}
+			c.S = parts
+		case "Difference", "DifferenceBy":
+			for len(parts) < 2 {
+				parts = append(parts, []int{})
+			}
+			c.S = parts[:2]
+		case "Without":
+			c.S = parts[:1]
+			if len(parts) > 1 {
+				c.Vals = parts[1]
+				if len(c.Vals) > 40 {
+					c.Vals = c.Vals[:40]
+				}
+			}
+		default:
+			c.S = parts[:1]
+		}
+		w := core.Probe(func(sig, detail string) { t.Fatalf("VERIF-SIG %s\nVERIF-CASE %s\n%s", sig, core.JSON(c), detail) })
+		run(w, c)
+	})
+}
+
 func TestProp(t *testing.T) {
 	r := core.Start(t, "C11")
 	defer r.Finish()
